@@ -41,6 +41,16 @@ def run(ctx, prefix=PREFIX):
                                             kind=kind, read_case=case)
             all_traces += t
             all_meta += m
+    if ctx.tier == "thorough":
+        # a third source of traces: the repository's own unedited test-suite, run under harness.recorder
+        from harness import suitetrace
+        doc = suitetrace.record()
+        if doc is not None:
+            ctx.extra["suite_traces"] = {"pytest": doc["pytest_summary"], "section_traces": len(doc["sections"]),
+                                         "events": sum(len(t) for t in doc["sections"])}
+            for t in doc["sections"]:
+                all_traces.append(t)
+                all_meta.append({"source": "repository test-suite (harness.recorder)"})
     fails, _ = ctx.validate("Trace_Section", section.doc_for(all_traces))
     section.judge(ctx, all_traces, all_meta, fails, prefix)
     ctx.sample({"model_edge": edges[len(edges) // 2]})
